@@ -698,6 +698,9 @@ func runCrashProp(r *Run, prop, stratum string) *Violation {
 	if hasWord(stratum, "innersel") {
 		o.TxnInnerSelect = true
 	}
+	if prop == "C09" && hasWord(stratum, "txnheavy") && !hasWord(stratum, "enum") && g.Choose("hugeintxn", 6) == 0 {
+		o.HugeInTxn = true // a source transaction with a command larger than the client's write buffer
+	}
 	if !hasWord(stratum, "filters") && g.Choose("fewdbs", 3) == 0 {
 		// few databases: the stream keeps coming back to the same ones (database 0 included), and a database map over
 		// them chains (a->b, b->c), so that mapping a database twice is not the identity
